@@ -7,6 +7,7 @@ import (
 	"time"
 
 	"github.com/wmnsk/go-pfcp/ie"
+	"github.com/wmnsk/go-pfcp/message"
 )
 
 // C08: responses are correlated with their request and consistent with its effect.
@@ -352,3 +353,60 @@ func ZZ_C08_Heartbeat()      { zzC08Heartbeat() }
 func ZZ_C08_AssocNoNodeID()  { zzC08AssocNoNodeID() }
 func ZZ_C08_Establish()      { zzC08Establish() }
 func ZZ_C08_SessionLevel()   { zzC08SessionLevel() }
+
+// "peers choosing equal control-plane SEIDs": two associated peers establish one session each and
+// both name the same CP SEID. Each response must carry that SEID back to its own requester, and a
+// session-level event of one peer (a Deletion, or a Session Report Response with SEID 0 for a report
+// of its session) must leave the other peer's session answering as before.
+func zzC08EqualCPSEIDs() {
+	w := zzMkRsp()
+	cp := nondetU64("cpseid")
+	var up [2]uint64
+	for k := 0; k < 2; k++ {
+		zzDeliver(w.s, zzAssocReq(uint32(1+k), zzNodeID(k)), zzAddr(k), uint32(1+k))
+		w.sent = zzSentCount()
+		seq := uint32(10 + k)
+		zzDeliver(w.s, zzEstReq(seq, ie.NewNodeID(zzNodeID(k), "", ""), ie.NewFSEID(cp, []byte{127, 0, 0, byte(1 + k)}, nil),
+			ie.NewCreateFAR(ie.NewFARID(1), ie.NewApplyAction(2))), zzAddr(k), seq)
+		b, h, ok := w.one(zzAddr(k), seq, 51, "eq.est")
+		if !ok {
+			return
+		}
+		zzAssert("C08.eq.est.header-seid-is-peers", h.s && h.seid == cp)
+		fs, okf := zzFindIE(b, h, 57)
+		if !okf || len(fs) != 13 {
+			zzAssert("C08.eq.est.up-fseid", false)
+			return
+		}
+		for i := 0; i < 8; i++ {
+			up[k] = up[k]<<8 | uint64(fs[1+i])
+		}
+	}
+	zzAssert("C08.eq.distinct-up-seids", up[0] != up[1] && up[0] != 0 && up[1] != 0)
+	// one peer's session ends
+	g := nondetChoice("ending-peer", 2)
+	o := 1 - g
+	if nondetBool("ended-by-seid0-report-response") {
+		req := message.NewSessionReportRequest(0, 0, cp, 0, 0, ie.NewReportType(0, 0, 1, 0))
+		rsp := message.NewSessionReportResponse(0, 0, 0, 0, 0, ie.NewCause(ie.CauseSessionContextNotFound))
+		w.s.handleSessionReportResponse(rsp, zzAddr(g), req)
+		w.none("eq.reportrsp")
+	} else {
+		zzDeliver(w.s, zzDelReq(up[g], 20), zzAddr(g), 20)
+		if _, h, ok := w.one(zzAddr(g), 20, 55, "eq.del"); ok {
+			zzAssert("C08.eq.del.seid-is-peers", h.s && h.seid == cp)
+		}
+	}
+	// the other peer's session still answers, under its own CP SEID; the ended one is unknown now
+	zzDeliver(w.s, zzModReq(up[o], 30), zzAddr(o), 30)
+	if b, h, ok := w.one(zzAddr(o), 30, 53, "eq.other"); ok {
+		zzAssert("C08.eq.other-session-still-accepted", zzFindCause(b, h) == ie.CauseRequestAccepted && h.s && h.seid == cp)
+	}
+	zzDeliver(w.s, zzModReq(up[g], 31), zzAddr(g), 31)
+	if b, h, ok := w.one(zzAddr(g), 31, 53, "eq.ended"); ok {
+		zzAssert("C08.eq.ended-session-not-found", zzFindCause(b, h) == ie.CauseSessionContextNotFound && h.s && h.seid == 0)
+	}
+	zzCover("C08.eq.done")
+}
+
+func ZZ_C08_EqualCPSEIDs() { zzC08EqualCPSEIDs() }
